@@ -37,7 +37,7 @@ def plan(tier, seed):
 
 def thresholds(tier):
   t = {"configs_completed": 100, "ops_replayed": 10000, "subword_ops": 500, "amo_ops": 200, "responses_checked": 10000,
-       "multiport_configs": 50, "rtl_configs": 30, "cl_configs": 30, "backpressure_configs": 30, "metamorphic_pairs": 8, "configs_with_ports_of_different_data_width": 20}
+       "multiport_configs": 50, "rtl_configs": 30, "cl_configs": 30, "backpressure_configs": 30, "metamorphic_pairs": 8, "configs_with_ports_of_different_data_width": 20, "cl_memory_with_rtl_masters_configs": 30}
   if tier == "thorough":
     t = {k: v * 20 for k, v in t.items()}
   return t
@@ -140,6 +140,21 @@ def build(model, nports, streams, gaps, ev, stall, latency, patterns, dws=None):
         for i in range(nports):
           connect(s.srcs[i].send, s.mem.ifc[i].req)
           connect(s.mem.ifc[i].resp, s.sinks[i].recv)
+  elif model == "clrtl":
+    # the CL memory driven by RTL masters: pymtl3 inserts RTL<->CL adapters, which hand the LIVE request signal object to the memory
+    from pymtl3.stdlib.mem.MagicMemoryCL import MagicMemoryCL
+    from pymtl3.stdlib.ifcs.send_recv_ifcs import RecvCL2SendRTL
+    SrcCL, SinkCL = harness.mk_cl()
+    class Top(Component):
+      def construct(s):
+        s.mem = MagicMemoryCL(nports, list(ptypes), stall, latency, MEMSZ)
+        s.srcs = [SrcCL(i, msgs[i], gaps[i], ev) for i in range(nports)]
+        s.rtl = [RecvCL2SendRTL(ptypes[i][0]) for i in range(nports)]          # an en/rdy RTL master in front of every port
+        s.sinks = [SinkCL(i, ev) for i in range(nports)]
+        for i in range(nports):
+          connect(s.srcs[i].send, s.rtl[i].recv)
+          connect(s.rtl[i].send, s.mem.ifc[i].req)
+          connect(s.mem.ifc[i].resp, s.sinks[i].recv)
   else:
     from pymtl3.stdlib.stream.magic_memory import MagicMemoryRTL
     SrcRTL, SinkRTL = harness.mk_rtl()
@@ -190,7 +205,7 @@ def simulate(sh, cfg, streams):
   try:
     top.sim_reset()
     while cyc < bound:
-      if cfg["model"] == "cl":
+      if cfg["model"] in ("cl", "clrtl"):
         for i in range(n):
           top.sinks[i].now_ready = bool(cfg["patterns"][i][cyc % len(cfg["patterns"][i])])
       top.sim_tick()
@@ -320,9 +335,10 @@ def check_history(sh, cfg, streams, ev, cyc, bound, err, image):
 
 
 def run_config(sh, rng, case, probe=None):
-  model = rng.choice(["cl", "cl", "rtl"])
+  model = rng.choice(["cl", "cl", "rtl", "clrtl"])
   nports = rng.choice([1, 2, 2, 3, 4]) if model == "cl" else rng.choice([1, 2, 2])
   latency = rng.choice([0, 1, 1, 2, 3, 5, 8]) if model == "cl" else rng.choice([0, 0, 1, 2, 4])
+  if model == "clrtl": latency = rng.choice([0, 0, 1, 2])
   stall = rng.choice([0, 0, 0.1, 0.5, 0.9])
   nwords = rng.choice([4, 4, 8, 16])
   bp = rng.choice(["none", "none", "half", "bursty", "rare"])
@@ -350,6 +366,7 @@ def run_config(sh, rng, case, probe=None):
   sh.count("evaluations"); sh.count("configs_completed")
   sh.count(model + "_configs")
   if nports > 1: sh.count("multiport_configs")
+  if model == "clrtl": sh.count("cl_memory_with_rtl_masters_configs")
   if len(set(cfg["dws"])) > 1: sh.count("configs_with_ports_of_different_data_width")
   if any(d != 32 for d in cfg["dws"]): sh.count("configs_with_16_or_64_bit_ports")
   if bp != "none": sh.count("backpressure_configs")
